@@ -85,6 +85,8 @@ DFail(w, i) == [ok |-> FALSE, why |-> w, at |-> i]   \* why: "trunc" | "bad" | "
 
 RECURSIVE ScanLine(_, _)
 ScanLine(b, i) == IF i > Len(b) THEN i
+                  \* (64 bytes at a time where possible: the recursion stays shallow on lines of tens of thousands of bytes)
+                  ELSE IF i + 63 <= Len(b) /\ \A j \in i..(i + 63) : b[j] # CR /\ b[j] # LF THEN ScanLine(b, i + 64)
                   ELSE IF b[i] = CR \/ b[i] = LF THEN i ELSE ScanLine(b, i + 1)
 
 \* payload starting at i, terminated by CRLF; no bare CR or LF inside
